@@ -68,6 +68,8 @@ type End struct {
 	OnRecv   func(pkt packet.Generic) // called at the instant a packet is returned by Receive
 	Hold     bool                     // when set, Send blocks (models a peer that does not read and a full socket buffer)
 	unhold   chan struct{}
+	unheld   bool
+	isExpired bool
 }
 
 // NewPipe creates a pipe; capacity is the number of frames that can be in
@@ -245,9 +247,8 @@ func (e *End) FailReceive() { e.failRecv = true }
 
 // ExpireReadDeadline models the read deadline passing while Receive waits.
 func (e *End) ExpireReadDeadline() {
-	select {
-	case <-e.expired:
-	default:
+	if !e.isExpired {
+		e.isExpired = true
 		close(e.expired)
 	}
 }
@@ -255,9 +256,8 @@ func (e *End) ExpireReadDeadline() {
 // Release lets held Sends proceed.
 func (e *End) Release() {
 	e.Hold = false
-	select {
-	case <-e.unhold:
-	default:
+	if !e.unheld {
+		e.unheld = true
 		close(e.unhold)
 	}
 }
